@@ -167,4 +167,13 @@ def check(ctx, R):
     R.run("C13.e", rule_e, ctx)
     from . import preds
     R.run("C13.p", lambda R, c: preds.rule(R, c, "C13.p", ["is_visible"]), ctx)
+    def _answers(R, c):
+        R.rule("C13.f", "R-PROV single definition of a snapshot: ReadTxn::snapshot() is Snapshot::new(get_state_vector(blocks), "
+                        "IdSet::from_store(blocks)) on every path")
+        fn = c.yrs.fn("yrs::transaction::ReadTxn::snapshot")
+        single_answer(R, "C13.f", fn, r"Snapshot::new$", "Snapshot::new(state vector, delete set of the store)")
+        d = answer_definitions(fn)
+        R.ob("C13.f", fn, "parts", all(term_has_call(x, "re:get_state_vector$") and term_has_call(x, "re:from_store$") for x in d),
+             "built from get_state_vector and from_store")
+    R.run("C13.f", _answers, ctx)
     return {}
